@@ -17,6 +17,15 @@ IN_ORDER_HELPERS = {'get_metavars_in_order'}
 MODULE = 'metamath.converter.converter'
 
 
+def _tab(e):
+    """the name a digit table is known by at a subscript: a plain name, or `self.<attr>` (a table kept on an object)"""
+    if isinstance(e, ast.Name):
+        return e.id
+    if isinstance(e, ast.Attribute) and isinstance(e.value, ast.Name) and e.value.id == 'self':
+        return f'self.{e.attr}'
+    return None
+
+
 def find_tables(py: PyRepo, fn: ast.FunctionDef):
     """letter -> small-int tables visible to the decoder: constant dicts (literal, comprehension over an alphabet, dict(zip(..)))
     assigned to a name in _import_proof or at module level; identified by content shape, not by name"""
@@ -24,13 +33,15 @@ def find_tables(py: PyRepo, fn: ast.FunctionDef):
     found = {}
     tree = py.modules[MODULE].tree
     cands = [n for n in tree.body if isinstance(n, (ast.Assign, ast.AnnAssign))] + [n for n in ast.walk(fn) if isinstance(n, (ast.Assign, ast.AnnAssign))]
+    cands += [n for c in py.modules[MODULE].classes.values() for g in c.methods.values() if g is not fn
+              for n in ast.walk(g) if isinstance(n, (ast.Assign, ast.AnnAssign))]
     for node in cands:
         tgt = node.targets[0] if isinstance(node, ast.Assign) else node.target
-        if not isinstance(tgt, ast.Name) or node.value is None:
+        if _tab(tgt) is None or node.value is None:
             continue
         pairs = dict_pairs(node.value)
         if pairs and all(isinstance(k, str) and len(k) == 1 and isinstance(x, int) and not isinstance(x, bool) for k, x in pairs):
-            found[tgt.id] = (pairs, node)
+            found[_tab(tgt)] = (pairs, node)
     return found
 
 
@@ -38,9 +49,10 @@ def find_decoder(py: PyRepo, fn: ast.FunctionDef, table_names):
     """the function that turns one word into a number: nested in _import_proof or at module level, it subscripts the digit tables"""
     tree = py.modules[MODULE].tree
     cands = [n for n in ast.walk(fn) if isinstance(n, ast.FunctionDef) and n is not fn] + [n for n in tree.body if isinstance(n, ast.FunctionDef)]
+    cands += [g for c in py.modules[MODULE].classes.values() for g in c.methods.values() if g is not fn and g not in cands]
     out = []
     for g in cands:
-        used = {n.value.id for n in ast.walk(g) if isinstance(n, ast.Subscript) and isinstance(n.value, ast.Name) and n.value.id in table_names
+        used = {_tab(n.value) for n in ast.walk(g) if isinstance(n, ast.Subscript) and _tab(n.value) in table_names
                 and isinstance(n.ctx, ast.Load)}
         if len(used) >= 2:
             out.append(g)
@@ -67,7 +79,7 @@ def find_inline_decoder(fn: ast.FunctionDef, names):
         return [n for n in ast.walk(node) if id(n) not in nested]
 
     def subs(node, table):
-        return [n for n in own(node) if isinstance(n, ast.Subscript) and isinstance(n.value, ast.Name) and n.value.id == table and isinstance(n.ctx, ast.Load)]
+        return [n for n in own(node) if isinstance(n, ast.Subscript) and _tab(n.value) == table and isinstance(n.ctx, ast.Load)]
 
     mains = [lp for lp in own(fn) if isinstance(lp, ast.For) and isinstance(lp.target, ast.Name) and subs(lp, ls) and subs(lp, ms)]
     # the outermost such loop
@@ -151,7 +163,7 @@ def loop_weight(cf: ast.FunctionDef, lp: ast.For, ms_name: str, within=None):
         elif isinstance(st, ast.Assign) and len(st.targets) == 1 and isinstance(st.targets[0], ast.Name) and isinstance(st.value, ast.BinOp) \
                 and isinstance(st.value.op, ast.Add) and isinstance(st.value.left, ast.Name) and st.value.left.id == st.targets[0].id:
             val = st.value.right
-        if val is not None and any(isinstance(f, ast.Subscript) and isinstance(f.value, ast.Name) and f.value.id == ms_name for f in _factors(val)):
+        if val is not None and any(isinstance(f, ast.Subscript) and _tab(f.value) == ms_name for f in _factors(val)):
             if acc is not None:
                 return None
             acc = (i, val)
@@ -198,7 +210,7 @@ def loop_weight(cf: ast.FunctionDef, lp: ast.For, ms_name: str, within=None):
 
     C, A, S = 1, 0, 0
     for f in _factors(val):
-        if isinstance(f, ast.Subscript) and isinstance(f.value, ast.Name) and f.value.id == ms_name:
+        if isinstance(f, ast.Subscript) and _tab(f.value) == ms_name:
             continue
         k = const_int(f)
         if k is not None:
@@ -258,7 +270,7 @@ def digit_tables(ctx, py: PyRepo, fn: ast.FunctionDef):
         ctx.require(inl is not None, 'anchor vanished: the function that decodes one word with both digit tables (convert_to_number), '
                                      'or the same arithmetic written in place in the loop over the proof letters')
         loops_ = [n for n in ast.walk(inl.loop) if isinstance(n, ast.For) and n is not inl.loop
-                  and any(isinstance(x, ast.Subscript) and isinstance(x.value, ast.Name) and x.value.id == names['most-significant'] for x in ast.walk(n))]
+                  and any(isinstance(x, ast.Subscript) and _tab(x.value) == names['most-significant'] for x in ast.walk(n))]
         ok, why_w = False, ''
         if len(loops_) == 1:
             lw = loop_weight(fn, loops_[0], names['most-significant'], within=inl.loop)
@@ -274,7 +286,7 @@ def digit_tables(ctx, py: PyRepo, fn: ast.FunctionDef):
     if zip_weight_table(py, fn, conv[0]) is not None:
         # ms[letter] * weight with the weight taken from a table: the table itself is checked under digit-order
         ok = any(isinstance(n, ast.BinOp) and isinstance(n.op, ast.Mult) and len(_factors(n)) == 2
-                 and any(isinstance(f, ast.Subscript) and isinstance(f.value, ast.Name) and f.value.id == names['most-significant'] for f in _factors(n))
+                 and any(isinstance(f, ast.Subscript) and _tab(f.value) == names['most-significant'] for f in _factors(n))
                  for n in ast.walk(conv[0]))
     else:
         loops_ = [n for n in ast.walk(conv[0]) if isinstance(n, ast.For)]
@@ -399,6 +411,16 @@ def numbering(ctx, py: PyRepo, fn: ast.FunctionDef, ci):
                         if isinstance(c, ast.Compare) and len(c.ops) == 1 and isinstance(c.ops[0], ast.In) \
                                 and ast.unparse(c.comparators[0]) not in [ast.unparse(x) for x in filt]:
                             filt.append(c.comparators[0])
+                    # the hypotheses come from the ordered list of floating hypotheses filtered by membership in the statement's
+                    # variables: a comprehension over that list that keeps what is NOT among them selects the complement
+                    if ast.unparse(n_.iter) == f'self.{ORDERED_ATTR}':
+                        neg = [c for c in n_.ifs if isinstance(c, ast.Compare) and len(c.ops) == 1 and isinstance(c.ops[0], ast.NotIn)]
+                        pos = [c for c in n_.ifs if isinstance(c, ast.Compare) and len(c.ops) == 1 and isinstance(c.ops[0], ast.In)]
+                        if neg and not pos:
+                            ctx.ob('hypothesis-order', 'variables-of-the-statement', False,
+                                   f'the mandatory hypotheses are taken from `self.{ORDERED_ATTR}` keeping what is NOT in '
+                                   f'`{ast.unparse(neg[0].comparators[0])}`: the hypotheses of the statement\'s own variables are the ones to number',
+                                   where)
         # a local that only names the set
         resolved = []
         for S in filt:
@@ -603,7 +625,7 @@ def digit_order(ctx, py: PyRepo, fn: ast.FunctionDef, names, cf):
         cf = inline.loop                     # the scope searched for definitions: the body of the loop over the proof letters
     else:
         where = py.where('metamath.converter.converter', cf)
-        word = cf.args.args[0].arg
+        word = [a.arg for a in cf.args.args if a.arg != 'self'][0]
 
     use_line = [10 ** 9]
 
@@ -685,7 +707,7 @@ def digit_order(ctx, py: PyRepo, fn: ast.FunctionDef, names, cf):
         return None
 
     # least-significant digit: lsdigit[<last letter>]
-    ls_uses = [n for n in ast.walk(cf) if isinstance(n, ast.Subscript) and isinstance(n.value, ast.Name) and n.value.id == names['least-significant']]
+    ls_uses = [n for n in ast.walk(cf) if isinstance(n, ast.Subscript) and _tab(n.value) == names['least-significant']]
     ok_ls = False
     if len(ls_uses) == 1:
         sl = ls_uses[0].slice
@@ -741,14 +763,13 @@ def digit_order(ctx, py: PyRepo, fn: ast.FunctionDef, names, cf):
     accs = [st.target.id if isinstance(st, ast.AugAssign) else st.targets[0].id for st in lp.body
             if (isinstance(st, ast.AugAssign) and isinstance(st.op, ast.Add) and isinstance(st.target, ast.Name)
                 or isinstance(st, ast.Assign) and len(st.targets) == 1 and isinstance(st.targets[0], ast.Name) and isinstance(st.value, ast.BinOp))
-            and any(isinstance(x, ast.Subscript) and isinstance(x.value, ast.Name) and x.value.id == names['most-significant'] for x in ast.walk(st.value))]
+            and any(isinstance(x, ast.Subscript) and _tab(x.value) == names['most-significant'] for x in ast.walk(st.value))]
     if len(accs) == 1:
         num = accs[0]
         inits = [n for n in ast.walk(scope) if isinstance(n, (ast.Assign, ast.AnnAssign)) and n.value is not None and not any(n is x for x in ast.walk(lp))
                  and isinstance(n.targets[0] if isinstance(n, ast.Assign) else n.target, ast.Name)
                  and (n.targets[0] if isinstance(n, ast.Assign) else n.target).id == num]
-        init_ok = len(inits) == 1 and isinstance(inits[0].value, ast.Subscript) and isinstance(inits[0].value.value, ast.Name) \
-            and inits[0].value.value.id == names['least-significant'] and inits[0].lineno < lp.lineno
+        init_ok = len(inits) == 1 and isinstance(inits[0].value, ast.Subscript) and _tab(inits[0].value.value) == names['least-significant'] and inits[0].lineno < lp.lineno
         other = [n for n in ast.walk(scope) if isinstance(n, ast.AugAssign) and isinstance(n.target, ast.Name) and n.target.id == num
                  and not any(n is x for x in ast.walk(lp))]
         if inline is None:
@@ -961,6 +982,52 @@ def step_tokens(ctx, py: PyRepo, fn):
                 bad.append('the buffer is not emptied after a closing letter')
             if h is False and resets:
                 bad.append('the buffer is emptied on a letter that does not close a number')
+        # every token is recorded: a closing letter appends exactly one number decoded from the buffer, `Z` appends exactly one
+        # marker constant while the buffer is empty, nothing else appends
+        zc = next((c_ for sp in all_paths for c_, _b in sp.conds if c_ == f"{letter} == 'Z'"), None)
+
+        def appends(sp):
+            return [c for a in sp.actions for c in ast.walk(a) if isinstance(c, ast.Call) and isinstance(c.func, ast.Attribute)
+                    and c.func.attr == 'append' and len(c.args) == 1]
+        bad2 = []
+        markers = set()
+        for sp in all_paths:
+            if sp.end == 'raise':
+                continue
+            aps = appends(sp)
+            if zc is not None and sp.holds(zc) is True:
+                if len(aps) != 1 or not isinstance(aps[0].args[0], ast.Constant):
+                    bad2.append('a `Z` does not record exactly one marker')
+                else:
+                    markers.add(aps[0].args[0].value)
+                    if not isinstance(aps[0].args[0].value, int) or aps[0].args[0].value >= 1:
+                        bad2.append(f'the `Z` marker {aps[0].args[0].value!r} is itself a step number (they start at 1)')
+                if not any(isinstance(a, ast.Assert) and ast.unparse(a.test) in (f"{buf} == ''", f'not {buf}', f'len({buf}) == 0') for a in sp.actions):
+                    bad2.append('a `Z` inside a number (non-empty buffer) is not rejected')
+            elif sp.holds(closing) is True:
+                # what is recorded is computed from the letters collected (the buffer and the closing letter), directly or through
+                # locals of this iteration
+                taint = {buf, letter}
+                for _round in range(4):
+                    for a in sp.actions:
+                        for x in ast.walk(a):
+                            if isinstance(x, (ast.Assign, ast.AnnAssign, ast.AugAssign)) and x.value is not None:
+                                t_ = x.targets[0] if isinstance(x, ast.Assign) else x.target
+                                if any(ast.unparse(y) in taint for y in ast.walk(x.value) if isinstance(y, (ast.Name, ast.Attribute))):
+                                    taint.add(ast.unparse(t_))
+                            elif isinstance(x, ast.For) and any(ast.unparse(y) in taint for y in ast.walk(x.iter) if isinstance(y, (ast.Name, ast.Attribute))):
+                                taint |= {y.id for y in ast.walk(x.target) if isinstance(y, ast.Name)}
+                nums = [c for c in aps if any(ast.unparse(x) in taint for x in ast.walk(c.args[0]) if isinstance(x, (ast.Name, ast.Attribute)))]
+                if len(aps) != 1 or len(nums) != 1:
+                    bad2.append('a closing letter does not record exactly one number decoded from the buffer')
+            elif aps:
+                bad2.append('a letter that closes nothing records a step')
+        if zc is None:
+            bad2.append("no test `<letter> == 'Z'` found: the save marker is not told apart from the digits")
+        ctx.ob('step-tokens', f'every-token-recorded@{getattr(node, "name", "loop")}', not bad2,
+               'the steps of a compressed proof: ' + '; '.join(sorted(set(bad2))) + ' - the replay would run out of step with the proof',
+               py.where('metamath.converter.converter', node), facts={'Z marker': sorted(markers)})
+        ctx.analysed['Z marker'] = sorted(markers)
         ctx.ob('step-tokens', f'buffer-reset@{getattr(node, "name", "loop")}', not bad,
                f'`{buf}` collects the letters of one number: ' + '; '.join(sorted(set(bad)))
                + ' - the next number would be decoded with the wrong high digits', py.where('metamath.converter.converter', node))
@@ -969,12 +1036,12 @@ def step_tokens(ctx, py: PyRepo, fn):
     ctx.ob('step-tokens', 'scan', True, f'{n} regular expressions over proof letters examined, {n_loops} letter-collecting loops', '')
 
 
-def identity_by_hash(ctx, py: PyRepo):
+def identity_by_hash(ctx, py: PyRepo, modules=('metamath.ast', 'metamath.converter.converter'), what='term'):
     """which hypotheses are mandatory is decided from the variables of the statement (Term.get_metavariables); terms are told
     apart structurally.  `hash(term)` as an identity (visited sets, memo keys) merges distinct terms - Application.__hash__ is an XOR
     of its parts, so e.g. `( f x x )` hashes alike for every x - and the variables of a merged term are lost."""
     n = 0
-    for mname in ('metamath.ast', 'metamath.converter.converter'):
+    for mname in modules:
         mi = py.modules.get(mname)
         if mi is None:
             continue
@@ -986,8 +1053,8 @@ def identity_by_hash(ctx, py: PyRepo):
                     if isinstance(node, ast.Call) and isinstance(node.func, ast.Name) and node.func.id in ('hash', 'id'):
                         n += 1
                         ctx.ob('identity-by-hash', f'{c.name}.{fname}', False,
-                               f'{c.name}.{fname} uses `{ast.unparse(node)[:50]}` as the identity of a term: two different terms can have the '
-                               f'same hash, and what is skipped as "already seen" (its variables, its conversion) is lost', py.where(mname, node))
+                               f'{c.name}.{fname} uses `{ast.unparse(node)[:50]}` as the identity of a {what}: two different {what}s can have the '
+                               f'same hash, and what is skipped as "already seen" (its variables, its conversion, its text) is lost', py.where(mname, node))
     ctx.ob('identity-by-hash', 'scan', True, f'{n} uses outside __hash__', '')
 
 
@@ -1015,7 +1082,192 @@ def label_tokens(ctx, py: PyRepo, fn):
         ctx.ob('label-tokens', f'split@{loop.lineno - fn.lineno}', (not explicit_sep) or guarded,
                f'labels are registered from `{ast.unparse(it)[:60]}`: with an explicit separator an empty label list yields the token \'\' '
                f'which is registered as a label, so the first marked step gets the wrong number', py.where('metamath.converter.converter', loop))
-    ctx.ob('label-tokens', 'scan', True, f'{n} label loops over split() examined', '')
+    # the character-scanning form: a text buffer extended letter by letter and handed on (stored under a number, yielded, appended)
+    # at a divider.  The property quantifies over all whitespace layouts, so the divider is ANY whitespace: on every path that hands
+    # the buffer on, `<letter>.isspace()` holds - a comparison with the space character alone merges labels separated by a newline
+    from ..core import astpaths as AP
+    m = 0
+    for lp in [x for x in ast.walk(fn) if isinstance(x, ast.For) and isinstance(x.target, (ast.Name, ast.Tuple))]:
+        tnames = [t.id for t in ([lp.target] if isinstance(lp.target, ast.Name) else lp.target.elts) if isinstance(t, ast.Name)]
+        bufs = {st.target.id: st.value.id for st in ast.walk(lp) if isinstance(st, ast.AugAssign) and isinstance(st.op, ast.Add)
+                and isinstance(st.target, ast.Name) and isinstance(st.value, ast.Name) and st.value.id in tnames}
+        if len(bufs) != 1:
+            continue
+        buf, letter = next(iter(bufs.items()))
+
+        def hands_on(a):
+            for x in ast.walk(a):
+                if isinstance(x, ast.Assign) and isinstance(x.targets[0], ast.Subscript) and isinstance(x.value, ast.Name) and x.value.id == buf:
+                    return True
+                if isinstance(x, (ast.Yield,)) and isinstance(x.value, ast.Name) and x.value.id == buf:
+                    return True
+                if isinstance(x, ast.Call) and isinstance(x.func, ast.Attribute) and x.func.attr == 'append' and len(x.args) == 1 \
+                        and isinstance(x.args[0], ast.Name) and x.args[0].id == buf:
+                    return True
+            return False
+        paths_ = AP.paths(lp.body)
+        flush = [sp for sp in paths_ if any(hands_on(a) for a in sp.actions)]
+        # only loops whose divider is a test on the letter itself (label lists); a buffer closed by a table lookup is another rule
+        if not flush or not any(c.startswith(f'{letter}.') or c.startswith(f'{letter} ==') or c.startswith(f'{letter} in') for sp in flush for c, _b in sp.conds):
+            continue
+        if any(c.startswith(f'{letter} in ') and not c.startswith(f'{letter} in (') and not c.startswith(f"{letter} in '") for sp in flush for c, _b in sp.conds):
+            continue
+        m += 1
+        bad = [sp for sp in flush if sp.holds(f'{letter}.isspace()') is not True]
+        ctx.ob('label-tokens', f'divider-is-any-whitespace@{lp.lineno - fn.lineno}', not bad,
+               f'the listed labels are cut where ' + ' / '.join(sorted({c for sp in bad for c, b in sp.conds if b and c.startswith(letter)})[:2])
+               + f' holds, not at any whitespace (`{letter}.isspace()`): a label list laid out with newlines or tabs is read as one label and '
+               f'every later number denotes the wrong label', py.where('metamath.converter.converter', lp))
+    ctx.ob('label-tokens', 'scan', True, f'{n} label loops over split() examined, {m} character-scanning loops', '')
+
+
+def scan_offsets(ctx, py: PyRepo, fn):
+    """The label list is found by scanning the proof text with `for k, ch in enumerate(text[<lower>:])` loops that `break` at a
+    character test; the position such a loop stops at is <lower> + k.  The chain must be: up to `(`; from just after it to the first
+    non-blank; from THAT position to `)`; and what is handed back - where the step letters start - is the position just after the
+    `)`.  Positions are compared as linear forms over the loop counters; instantiated only when the function has this shape."""
+    from .c16 import Lin, lin_index
+    m = 0
+    for sc in [g for g in ast.walk(fn) if isinstance(g, ast.FunctionDef) and g is not fn]:
+        scans = []
+        for lp in [x for x in sc.body if isinstance(x, ast.For)]:
+            it = lp.iter
+            if not (isinstance(it, ast.Call) and isinstance(it.func, ast.Name) and it.func.id == 'enumerate' and len(it.args) == 1
+                    and isinstance(lp.target, ast.Tuple) and len(lp.target.elts) == 2 and all(isinstance(t, ast.Name) for t in lp.target.elts)):
+                continue
+            src = it.args[0]
+            lower = Lin(0)
+            base = src
+            if isinstance(src, ast.Subscript) and isinstance(src.slice, ast.Slice) and src.slice.upper is None and src.slice.step is None:
+                base = src.value
+                try:
+                    lower = lin_index(src.slice.lower, {}) if src.slice.lower is not None else Lin(0)
+                except ValueError:
+                    continue
+            if not isinstance(base, ast.Name):
+                continue
+            k, ch = lp.target.elts[0].id, lp.target.elts[1].id
+            # the test under which the loop breaks
+            stops = []
+            for sp in __import__('sa.core.astpaths', fromlist=['paths']).paths(lp.body):
+                if sp.end == 'break':
+                    stops.append([(c, b) for c, b in sp.conds if c.startswith(ch)])
+            scans.append((lp, base.id, lower, k, ch, stops))
+        rets = [r for r in ast.walk(sc) if isinstance(r, ast.Return) and r.value is not None]
+        if len(scans) != 3 or len(rets) != 1 or len({b for _l, b, *_r in scans}) != 1:
+            continue
+        try:
+            ret = lin_index(rets[0].value, {})
+        except ValueError:
+            continue
+        m += 1
+        (l1, _b, lo1, k1, c1, s1), (l2, _b2, lo2, k2, c2, s2), (l3, _b3, lo3, k3, c3, s3) = scans
+        P1 = lo1 + Lin(0, {k1: 1})
+        P2 = lo2 + Lin(0, {k2: 1})
+        P3 = lo3 + Lin(0, {k3: 1})
+        probs = []
+        if s1 != [[(f"{c1} == '('", True)]]:
+            probs.append('the first scan does not stop exactly at `(`')
+        if lo2 != P1 + Lin(1):
+            probs.append(f'the second scan starts at {lo2}, not just after the `(` ({P1 + Lin(1)})')
+        if s2 != [[(f'{c2}.isspace()', False)]]:
+            probs.append('the second scan does not stop exactly at the first non-blank character')
+        if lo3 != P2:
+            probs.append(f'the label scan starts at {lo3}, not at the first label character ({P2})')
+        if not any((f"{c3} == ')'", True) in st_ for st_ in s3):
+            probs.append('the label scan does not stop at `)`')
+        if ret != P3 + Lin(1):
+            probs.append(f'the offset handed back is {ret}; the step letters start just after the `)` ({P3 + Lin(1)})')
+        ctx.ob('label-tokens', f'scan-offsets@{sc.name}', not probs,
+               f'{sc.name} locates the label list by position: ' + '; '.join(probs) + ' - a label is cut, or the first step letters are '
+               'lost / a `)` is read as a step', py.where(MODULE, sc))
+    return m
+
+
+def steps_fresh_per_proof(ctx, py: PyRepo, fn, ci):
+    """the decoded step numbers of one proof are a list made for that proof: `Proof(<labels>, <steps>)` built by _import_proof must
+    not be handed a list that lives on the converter or on a helper object kept by it - every earlier Proof would show the steps of
+    the proof decoded last"""
+    from .c16 import returned_exprs
+    mi = py.modules[MODULE]
+
+    def attr_class(owner, attr):
+        """class of `self.<attr>` of `owner`, from the annotation or the constructor call in __init__"""
+        init = owner.methods.get('__init__')
+        if init is None:
+            return None
+        for n in ast.walk(init):
+            if isinstance(n, (ast.Assign, ast.AnnAssign)) and ast.unparse(n.targets[0] if isinstance(n, ast.Assign) else n.target) == f'self.{attr}' \
+                    and isinstance(n.value, ast.Call) and isinstance(n.value.func, ast.Name):
+                return py.find_class(n.value.func.id, MODULE)
+        return None
+
+    def fresh(e, scope, owner, depth=0):
+        """True | False | None (cannot tell)"""
+        if depth > 6:
+            return None
+        if isinstance(e, (ast.List, ast.ListComp)):
+            return True
+        if isinstance(e, ast.Call) and isinstance(e.func, ast.Name) and e.func.id in ('list', 'sorted'):
+            return True
+        if isinstance(e, ast.Call) and isinstance(e.func, ast.Attribute) and e.func.attr == 'copy' and not e.args:
+            return True
+        if isinstance(e, ast.Subscript) and isinstance(e.slice, ast.Slice):
+            return True
+        if isinstance(e, ast.Attribute) and isinstance(e.value, ast.Name) and e.value.id != 'self':
+            # attribute of a local object: fresh when the object is created in this call and its constructor makes the list
+            inner = {id(x) for g in ast.walk(scope) if isinstance(g, ast.FunctionDef) and g is not scope for x in ast.walk(g)}
+            made = [n.value for n in ast.walk(scope) if id(n) not in inner and isinstance(n, (ast.Assign, ast.AnnAssign)) and n.value is not None
+                    and ast.unparse(n.targets[0] if isinstance(n, ast.Assign) else n.target) == e.value.id]
+            if len(made) == 1 and isinstance(made[0], ast.Call) and isinstance(made[0].func, ast.Name):
+                cls_ = py.find_class(made[0].func.id, MODULE)
+                init = cls_.methods.get('__init__') if cls_ is not None else None
+                if init is not None:
+                    sets = [n.value for n in ast.walk(init) if isinstance(n, (ast.Assign, ast.AnnAssign)) and n.value is not None
+                            and ast.unparse(n.targets[0] if isinstance(n, ast.Assign) else n.target) == f'self.{e.attr}']
+                    if sets:
+                        vals = [fresh(v, init, cls_, depth + 1) for v in sets]
+                        return False if False in vals else (None if None in vals else True)
+            return None
+        if isinstance(e, ast.Attribute):
+            return False                          # state of an object that outlives the call
+        if isinstance(e, ast.Name):
+            inner = {id(x) for g in ast.walk(scope) if isinstance(g, ast.FunctionDef) and g is not scope for x in ast.walk(g)}
+            defs = [n for n in ast.walk(scope) if id(n) not in inner and isinstance(n, (ast.Assign, ast.AnnAssign)) and n.value is not None
+                    and isinstance(n.targets[0] if isinstance(n, ast.Assign) else n.target, ast.Name)
+                    and (n.targets[0] if isinstance(n, ast.Assign) else n.target).id == e.id]
+            if not defs:
+                return None
+            vals = [fresh(d.value, scope, owner, depth + 1) for d in defs]
+            return False if False in vals else (None if None in vals else True)
+        if isinstance(e, ast.Call):
+            callee = own2 = None
+            if isinstance(e.func, ast.Name):
+                callee = next((g for g in ast.walk(fn) if isinstance(g, ast.FunctionDef) and g.name == e.func.id), None) or mi.functions.get(e.func.id)
+                own2 = owner
+            elif isinstance(e.func, ast.Attribute) and ast.unparse(e.func.value) == 'self' and owner is not None:
+                callee, own2 = owner.methods.get(e.func.attr), owner
+            elif isinstance(e.func, ast.Attribute) and isinstance(e.func.value, ast.Attribute) and ast.unparse(e.func.value.value) == 'self' and owner is not None:
+                own2 = attr_class(owner, e.func.value.attr)
+                callee = own2.methods.get(e.func.attr) if own2 is not None else None
+            if callee is None:
+                return None
+            rets = returned_exprs(callee)
+            if not rets:
+                return None
+            vals = [fresh(v, callee, own2, depth + 1) for _st, v in rets]
+            return False if False in vals else (None if None in vals else True)
+        return None
+
+    sites = [c for c in ast.walk(fn) if isinstance(c, ast.Call) and isinstance(c.func, ast.Name) and c.func.id == 'Proof' and len(c.args) == 2]
+    ctx.require(len(sites) >= 1, '_import_proof: the construction `Proof(<labels>, <steps>)` was not found')
+    for k, c in enumerate(sites):
+        scope = next((g for g in ast.walk(fn) if isinstance(g, ast.FunctionDef) and g is not fn and any(c is x for x in ast.walk(g))), fn)
+        v = fresh(c.args[1], scope, ci)
+        ctx.require(v is not None, f'_import_proof: cannot tell where the list of steps `{ast.unparse(c.args[1])[:60]}` comes from')
+        ctx.ob('step-tokens', 'steps-fresh-per-proof' + ('' if k == 0 else f'#{k + 1}'), v,
+               f'`{ast.unparse(c.args[1])[:60]}` is a list that outlives this proof (state of the converter or of an object it keeps): '
+               f'every Proof built earlier shares it and shows the steps of the proof decoded last', py.where(MODULE, c))
 
 
 def label_numbering(ctx, py: PyRepo, fn):
@@ -1068,6 +1320,10 @@ def label_numbering(ctx, py: PyRepo, fn):
                         bad.append(f'`{B}` is not emptied after a label is registered')
                 elif incs:
                     bad.append(f'`{K}` is advanced on an iteration that registers no label')
+                if not st_at and sp.end not in ('break', 'return') and not any(isinstance(a, ast.AugAssign) and isinstance(a.target, ast.Name)
+                                                                                 and a.target.id == B for a in sp.actions) \
+                        and not any(c_.endswith('.isspace()') and b_ for c_, b_ in sp.conds):
+                    bad.append(f'a character of a label is not added to `{B}`')
             ctx.ob('hypothesis-order', 'label-numbering/consecutive', not bad,
                    'the listed labels must get consecutive numbers: ' + '; '.join(sorted(set(bad))), where)
     return n
@@ -1088,7 +1344,11 @@ def run(ctx):
     ctx.ob('hypothesis-order', 'ordered-source-is-a-list', ann_ok,
            f'self.{ORDERED_ATTR} must be a list (insertion = database order)', py.where('metamath.converter.converter', init))
     label_tokens(ctx, py, fn)
-    label_numbering(ctx, py, fn)
+    n_ln = label_numbering(ctx, py, fn)
+    ctx.require(n_ln >= 1 or any(isinstance(x, ast.Call) and isinstance(x.func, ast.Attribute) and x.func.attr == 'split' for x in ast.walk(fn)),
+                'anchor vanished: the loop that registers the listed labels under consecutive numbers (or a split() of the label list)')
+    steps_fresh_per_proof(ctx, py, fn, ci)
+    scan_offsets(ctx, py, fn)
     step_tokens(ctx, py, fn)
     identity_by_hash(ctx, py)
     # where the numbers past the label list are resolved: the k-th Z opens the k-th slot, number n reloads slot n - len(labels) - 1
